@@ -68,15 +68,17 @@ def rtrim (v : Bytes) : Bytes := (v.reverse.dropWhile isSpaceC).reverse
 /-- `add_tag_enclosed(tag, s)`: `s` = text after the opening quote.  Returns the pushed value
 and the text at the returned `head`. -/
 def enclosed : Bytes → Bytes × Bytes
-  | [] => ([], [])
-  | [b] => if b == ENDQUOTE then ([], []) else ([b], [])
-  | b :: c :: rest =>
+  | [] => ([], [])                                     -- unterminated: `while(*head)` ends
+  | b :: rest =>
     if b == ESC then
-      let r := enclosed rest
-      (escByte c :: r.1, r.2)
-    else if b == ENDQUOTE then ([], c :: rest)
+      match rest with
+      | [] => ([b], [])                                -- `head[1] == 0`: the backslash is copied
+      | c :: rest' =>
+        let r := enclosed rest'
+        (escByte c :: r.1, r.2)
+    else if b == ENDQUOTE then ([], rest)
     else
-      let r := enclosed (c :: rest)
+      let r := enclosed rest
       (b :: r.1, r.2)
 
 theorem enclosed_rest_le (s : Bytes) : (enclosed s).2.length ≤ s.length := by
